@@ -178,6 +178,11 @@ def slots(ctx, cgf):
             a, b = (end[2][0], end[2][1]) if end[0] == 'call' else (end[2], end[3])
             okc = strip(a)[0] == 'arg' and is_call(strip(b), 'Vec::<T, A>::len')
         okr = is_int(start, 0) and okc
+        if not okr:
+            # `for slot in output.len()..target`: as many trips as target exceeds the current length (none if it does not)
+            st_, en_ = strip(start), strip(fl.get('end'))
+            okr = is_call(st_, 'Vec::<T, A>::len') and strip(st_[2][0])[0] == 'arg' and en_[0] == 'arg' and \
+                mpf.dominates(0, mh) and not any(c_['block'] not in mbody and mpf.dominates(c_['block'], mh) and c_['path'].endswith('Vec::<T, A>::push') for c_ in mpf.calls(lambda r: r['path']))
     okcount = okr and not cycle_without(mpf, mbody, mh, {mp[0]['block']})
     if not okcount:
         # equivalent form: while output.len() < target { push }
@@ -266,7 +271,7 @@ def inherit(ctx, vb):
         if pf is not None:
             ex_ = [strip(x_['expr']) for x_ in pf.exits()]
             okty = len(ex_) == 1 and ex_[0][0] == 'call' and bool(re.search(r'::ne$', ex_[0][1])) and FUNCTION in ex_[0][4] and not pf.switches()
-        okn = bool(zipped and sides and okty) and (covers_all_paths(vb, g) if not getattr(g, 'lifted_from', None) else True)
+        okn = bool(zipped and sides and okty)
         det = 'search form %s over %s' % (short(X[1]), show(it)[:120])
         gne = [g]
     elif len(gne) == 1:
@@ -403,6 +408,16 @@ def vtype(ctx):
            'the vftable struct has one region per function of the list, in list order (map over the unadapted slice): %s' % (show(regs)[:160] if regs else None), where)
     oks = is_call(isr['alignment'], 'pointer_size') and is_call(isr['size'], 'Iterator::sum') and any(strip(x) in (regs, regs_var) for x in walk(isr['size']))
     sz = strip(isr['size'])
+    if not oks and is_call(isr['alignment'], 'pointer_size') and is_call(sz, 'Iterator::fold') and len(sz[2]) == 3:
+        # regions.iter().fold(0, |total, r| total + r.size(..).unwrap())
+        pf_ = predicate_fn(P, sz[2][2])
+        ex_ = [strip(x_['expr']) for x_ in pf_.exits()] if pf_ is not None else []
+        if len(ex_) == 1 and is_int(sz[2][1], 0) and any(strip(x_) in (regs, regs_var) for x_ in walk(sz[2][0])) and not pf_.switches():
+            e_ = ex_[0]
+            if e_[0] == 'bin' and e_[1] == 'Add':
+                acc_, inc_ = strip(e_[2]), unwrap_all(e_[3])
+                oks = acc_[0] == 'arg' and is_call(inc_, 'Region::size') and strip(inc_[2][0])[0] == 'arg' and strip(inc_[2][0])[1] != acc_[1] and \
+                    not any(re.search(r'Iterator::(rev|skip|take|filter|step_by)$', c_[3]) for c_ in calls_in(sz[2][0]))
     if not oks and lb and sz[0] == 'var' and is_call(isr['alignment'], 'pointer_size'):
         # running total kept in the loop that builds the regions: starts at 0 and grows by the size of the region pushed in the same trip
         defs_ = bt.defs().get(sz[1], [])
